@@ -372,34 +372,45 @@ V("C10", "separator-after-existing-header", "F", "R5", HDP, '        if not has_
 V("C10", "lisp-regexp-needs-two", "F", "R3", R + "comment.py", 'SINGLE_LINE_REGEXP = re.compile(r"^;+\\s*")', 'SINGLE_LINE_REGEXP = re.compile(r"^;;;;+\\s*")')
 
 # ----------------------------------------------------------------- benign refactors (must stay silent)
-def S(prop, vid, file, old, new):
-    VARIANTS.append({"prop": prop, "id": f"{prop}:benign-{vid}", "expect": "S", "rule": "", "edits": [], "sed": (file, old, new)})
+def S(prop, vid, file, name, new):
+    """Rename a LOCAL variable / parameter (word boundaries; not attributes `.name`, not keyword arguments `name=`)."""
+    VARIANTS.append({"prop": prop, "id": f"{prop}:benign-{vid}", "expect": "S", "rule": "", "edits": [],
+                     "resub": (file, r"(?<![.\w])" + name + r"\b(?!\s*=[^=])|(?<![.\w])" + name + r"\b(?=\s*=[^=][^,)]*$)", new)})
 
 
-S("C01", "rename-file_report", RPT, "file_report", "frep")
-S("C13", "rename-file_report", RPT, "file_report", "frep")
-S("C06", "rename-file_report", RPT, "file_report", "frep")
-S("C18", "rename-file_report", RPT, "file_report", "frep")
-S("C14", "rename-file_report", RPT, "file_report", "frep")
-S("C13", "rename-lic-loopvar", LNT, "for lic in", "for licence in")
-S("C02", "rename-read_limit", EXP, "read_limit", "limit")
-S("C02", "log-message", EXP, "seems to contain an SPDX Snippet", "looks like it has an SPDX snippet")
-S("C04", "rename-file_result", PRJ, "file_result", "own_info")
-S("C03", "inline-name", R + "covered_files.py", "pattern.match(name)", "pattern.match(path.name)")
-S("C08", "rename-line_ending", ANP, "line_ending", "eol")
-S("C11", "rename-line_ending", ANP, "line_ending", "eol")
-S("C15", "rename-destination", R + "download.py", "destination", "dest")
-S("C19", "rename-destination", R + "download.py", "destination", "dest")
-S("C15", "rename-comment_style", ANP, "comment_style", "cstyle")
-S("C07", "rename-comment_style", ANP, "comment_style", "cstyle")
-S("C11", "rename-comment_style", ANP, "comment_style", "cstyle")
-S("C09", "rename-existing_spdx", R + "header.py", "existing_spdx", "existing")
-S("C16", "rename-annotation_dicts", GLP, "annotation_dicts", "raw_annotations")
-S("C05", "rename-blocks", GLP, "blocks", "pieces")
-S("C17", "rename-paragraph_result", R + "convert_dep5.py", "paragraph_result", "entry")
-S("C20", "rename-copyright_in", CPP, "copyright_in", "parsed")
-S("C10", "rename-copyright_in", CPP, "copyright_in", "parsed")
-S("C12", "rename-ignore_start", EXP, "ignore_start", "start_idx")
-S("C14", "rename-found", GLP, "found", "relevant")
-S("C04", "rename-found", GLP, "found", "relevant")
-S("C18", "rename-out", RPT, "out.write(", "buf.write(")
+def S2(prop, vid, file, pattern, new):
+    VARIANTS.append({"prop": prop, "id": f"{prop}:benign-{vid}", "expect": "S", "rule": "", "edits": [], "resub": (file, pattern, new)})
+
+
+for _p in ("C01", "C13", "C06", "C18", "C14"):
+    S2(_p, "rename-file_report", RPT, r"\bfile_report\b", "frep")
+S2("C13", "rename-lic-loopvar", LNT, r"\blic\b", "licence")
+S2("C02", "rename-read_limit", EXP, r"\bread_limit\b", "limit")
+S2("C02", "log-message", EXP, "seems to contain an SPDX Snippet", "looks like it has an SPDX snippet")
+S2("C04", "rename-file_result", PRJ, r"\bfile_result\b", "own_info")
+S2("C03", "inline-name", R + "covered_files.py", r"pattern\.match\(name\)", "pattern.match(path.name)")
+for _p in ("C08", "C11"):
+    S2(_p, "rename-line_ending", ANP, r"\bline_ending\b", "eol")
+for _p in ("C15", "C19"):
+    S2(_p, "rename-destination-local", R + "download.py", r"(?<![.\w])destination\b(?!=)", "dest")
+for _p in ("C15", "C07", "C11"):
+    S2(_p, "rename-comment_style", ANP, r"\bcomment_style\b", "cstyle")
+S2("C09", "rename-existing_spdx", R + "header.py", r"\bexisting_spdx\b", "existing")
+S2("C16", "rename-annotation_dicts", GLP, r"\bannotation_dicts\b", "raw_annotations")
+S2("C05", "rename-blocks", GLP, r"\bblocks\b", "pieces")
+S2("C17", "rename-paragraph_result", R + "convert_dep5.py", r"\bparagraph_result\b", "entry")
+for _p in ("C20", "C10", "C09"):
+    S2(_p, "rename-copyright_in", CPP, r"\bcopyright_in\b", "parsed")
+S2("C12", "rename-ignore_start", EXP, r"\bignore_start\b", "start_idx")
+for _p in ("C14", "C04"):
+    S2(_p, "rename-found-local", GLP, r"(?<![.\w])found\b", "relevant")
+S2("C18", "rename-out", RPT, r"\bout\b(?!=)", "buf")
+S2("C01", "rename-project_report", RPT, r"\bproject_report\b", "prep")
+S2("C19", "rename-return_code", R + "cli/download.py", r"\breturn_code\b", "rc")
+S2("C11", "rename-result", CAP, r"(?<![.\w])result\b", "failures")
+S2("C06", "rename-identifiers", RPT, r"\bidentifiers\b", "ids")
+S2("C04", "rename-toml_items", GLP, r"\btoml_items\b", "pairs")
+S2("C03", "rename-the_file", R + "covered_files.py", r"\bthe_file\b", "candidate")
+S2("C08", "rename-new_text", HDP, r"\bnew_text\b", "assembled")
+S2("C07", "rename-rendered", HDP, r"\brendered\b", "body")
+S2("C13", "rename-number_of_files", RPT, r"\bnumber_of_files\b", "total")
